@@ -410,6 +410,26 @@ static void run_fs(char** a, int n)
     printf("res=%s", r ? "str" : "NULL");
     zix_free(A, r);
     free(rp);
+  } else if (!strcmp(a[0], "cwdlong")) {
+    // working directory deeper than PATH_MAX: the result is NULL or a block of the caller's allocator
+    char here[4096];
+    if (!getcwd(here, sizeof(here))) {
+      printf("res=skip");
+    } else {
+      char comp[201];
+      memset(comp, 'd', 200);
+      comp[200] = 0;
+      int depth = 0, ok = !chdir(scratch);
+      for (; ok && depth < 24; ++depth) {
+        ok = (!mkdir(comp, 0777) || errno == EEXIST) && !chdir(comp);
+      }
+      char* r = ok ? zix_current_path(A) : NULL;
+      printf("res=%s deep=%d", r ? "str" : "NULL", ok);
+      zix_free(A, r); // a block that did not come from the caller's allocator is a protocol error here
+      if (chdir(here)) {
+        printf(" chdir-back-failed");
+      }
+    }
   } else if (!strcmp(a[0], "cwd")) {
     char* r = zix_current_path(A);
     char  b[4096];
